@@ -95,7 +95,8 @@ fn one(case: &Value) -> Result<Value, String> {
         safe_args: intern_slice(safe.clone()),
         fields: DynVal::Struct(fields.clone()),
     };
-    let encoded = conjure_error::encode(&mk());
+    let by_ref = case["by_ref"].as_bool().unwrap_or(false);
+    let encoded = if by_ref { conjure_error::encode(&&mk()) } else { conjure_error::encode(&mk()) };
     let encoded2 = conjure_error::encode(&mk());
     // JSON round trip of the serializable form
     let text = conjure_serde::json::to_string(&encoded).map_err(|e| e.to_string())?;
@@ -105,6 +106,8 @@ fn one(case: &Value) -> Result<Value, String> {
     let back_smile = conjure_serde::smile::server_from_slice::<SerializableError>(&smile).map_err(|e| e.to_string())?;
     let mode = case["mode"].as_str().unwrap_or("service");
     let err = match mode {
+        "service" if by_ref => Error::service("cause", &mk()),
+        "service_safe" if by_ref => Error::service_safe("cause", &mk()),
         "service" => Error::service("cause", mk()),
         "service_safe" => Error::service_safe("cause", mk()),
         "propagated" => Error::propagated_service("cause", conjure_error::encode(&mk())),
